@@ -121,6 +121,15 @@ pub fn run_issuer_seq(alpha: &[IssOp], seq: &[usize], alg: Alg, l: &mut Local) {
                 l.violation(mk(class, site, detail.clone()));
             }
             if let Some(c) = &cred {
+                // the protected header is what a fresh instance writes for these arguments
+                let mut fresh_issuer = drive::new_issuer(keys::issuer_enc(alg, 0), Some(alg.name()));
+                if let Out::Ok(f) = drive::issue(&mut fresh_issuer, &op.claims, &op.strat, op.hk.jwk(0), op.decoys, op.fmt) {
+                    if let Some(fp) = codec::parse(&f, op.fmt) {
+                        if fp.header() != c.parts.header() {
+                            l.violation(mk("differs_from_fresh_instance", "c11_protected_header", format!("{:?} on the used instance, {:?} on a fresh one", c.parts.header(), fp.header())));
+                        }
+                    }
+                }
                 // nothing of an earlier result in this one
                 let mine_d: BTreeSet<&String> = c.parts.disclosures.iter().collect();
                 let mine_g: BTreeSet<&String> = c.an.all_digests.iter().collect();
@@ -181,6 +190,8 @@ pub fn holder_alphabet() -> Vec<HoldOp> {
         HoldOp { name: "p1_nokb", sel: obj(json!({"a": true})), kb: 0, fails: false },
         HoldOp { name: "fail_unknown_object", sel: obj(json!({"zz": {"q": true}})), kb: 1, fails: true },
         HoldOp { name: "fail_kb_alg_not_for_this_key", sel: obj(json!({"a": true})), kb: 4, fails: true },
+        // fails only after genuine hidden claims were already picked
+        HoldOp { name: "fail_after_selecting", sel: obj(json!({"a": true, "b": {"c": true}, "d": [true, true], "zz": true})), kb: 0, fails: true },
     ]
 }
 const A: [&str; 3] = ["", "https://v1.example", "https://v2.example"];
@@ -296,6 +307,7 @@ pub fn deep_holder_alphabet() -> Vec<HoldOp> {
         HoldOp { name: "deep_partial_kb", sel: obj(json!({"a": {"b": {"c": [{"d": {"e": {"g": true}}}]}}})), kb: 1, fails: false },
         HoldOp { name: "deep_fail_unknown_object_at_depth_4", sel: obj(json!({"a": {"b": {"c": [{"zz": {"q": true}}]}}})), kb: 0, fails: true },
         HoldOp { name: "shallow", sel: obj(json!({"h": true})), kb: 0, fails: false },
+        HoldOp { name: "deep_fail_after_selecting", sel: obj(json!({"h": true, "a": {"b": {"c": [{"d": {"e": {"f": true, "zz": true}}}]}}})), kb: 0, fails: true },
     ]
 }
 pub fn deep_holder_cred(fmt: Fmt) -> Option<Cred> {
@@ -353,7 +365,7 @@ pub fn run(rep: &Report) {
         };
         let hs = sequences(ha.len(), full_len);
         par_for(rep, hs.len(), |i, l| run_holder_seq(&cred, &ha, &hs[i], l));
-        rep.scope_done(json!({"scope": format!("holder built from a {} SD-JWT: every sequence of length <= {full_len} over the 11-operation alphabet (7 succeeding, 4 failing)", fmt.name()), "sequences": hs.len()}));
+        rep.scope_done(json!({"scope": format!("holder built from a {} SD-JWT: every sequence of length <= {full_len} over the 12-operation alphabet (7 succeeding, 5 failing)", fmt.name()), "sequences": hs.len()}));
         let hcore_ids: Vec<usize> = if quick { vec![2, 1, 3] } else { vec![2, 1, 3, 4] };
         let hcore: Vec<HoldOp> = hcore_ids.iter().map(|i| ha[*i].clone()).collect();
         let hl = sequences(hcore.len(), 8);
@@ -367,9 +379,9 @@ pub fn run(rep: &Report) {
         // deep credential: failures deep inside the selection walk, then valid calls
         if let Some(dc) = deep_holder_cred(fmt) {
             let da = deep_holder_alphabet();
-            let dl = sequences(da.len(), if quick { 6 } else { 8 });
+            let dl = sequences(da.len(), if quick { 5 } else { 7 });
             par_for(rep, dl.len(), |i, l| run_holder_seq_on(&dc, &da, &dl[i], "deep", l));
-            rep.scope_done(json!({"scope": format!("holder ({}) of a credential nested 6 levels: every sequence of length <= {} over 5 operations (3 succeeding, 2 failing at depth 6 / 4)", fmt.name(), if quick { 6 } else { 8 }), "sequences": dl.len()}));
+            rep.scope_done(json!({"scope": format!("holder ({}) of a credential nested 6 levels: every sequence of length <= {} over 6 operations (3 succeeding, 3 failing at depth 6 / 4 / after selecting)", fmt.name(), if quick { 6 } else { 8 }), "sequences": dl.len()}));
         }
     }
     if rep.outcome_count("step_ok") == 0 || rep.outcome_count("failing_call_failed") == 0 {
